@@ -156,9 +156,34 @@ Qed.
 Lemma can_receive_send cf m rq : can_receive cf m rq = can_send cf m rq.
 Proof. reflexivity. Qed.
 
+Definition fwd_out (cf : cfg) (st : state) (c r : N) (m : msg) : out := (r, OFwd c m) :: eav_out cf st c r m.
+
+Lemma eav_out_in cf st c r m x : In x (eav_out cf st c r m) -> snd x = OEav c m.
+Proof. unfold eav_out. intros H. apply in_map_iff in H. destruct H as (e & <- & _). reflexivity. Qed.
+
+Lemma existsb_eav (f : N * omsg -> bool) cf st c r m :
+  (forall x, snd x = OEav c m -> f x = false) -> existsb f (eav_out cf st c r m) = false.
+Proof.
+  intros H. destruct (existsb f (eav_out cf st c r m)) eqn:E; auto.
+  apply existsb_exists in E. destruct E as (x & Hx & Fx). rewrite H in Fx; [discriminate|]. eapply eav_out_in; eauto.
+Qed.
+
+Lemma filter_eav (f : N * omsg -> bool) cf st c r m :
+  (forall x, snd x = OEav c m -> f x = false) -> filter f (eav_out cf st c r m) = [].
+Proof.
+  intros H. destruct (filter f (eav_out cf st c r m)) as [|x l] eqn:E; auto.
+  assert (Hx : In x (filter f (eav_out cf st c r m))) by (rewrite E; left; auto).
+  apply filter_In in Hx. destruct Hx as [Hx Fx]. rewrite H in Fx; [discriminate|]. eapply eav_out_in; eauto.
+Qed.
+
+Lemma fwd_to_single cf st c r m x : fwd_to (fwd_out cf st c r m) x = (r =? x).
+Proof.
+  unfold fwd_to, fwd_out. cbn [existsb snd fst]. rewrite existsb_eav; [apply orb_false_r|]. intros y Hy. rewrite Hy. reflexivity.
+Qed.
+
 Lemma dispatch_shape cf st c m st' o :
   dispatch cf st c m = (st', o) ->
-  (exists r, resolve st (m_dest m) = Some r /\ o = [(r, OFwd c m)]) \/ (exists e, o = [(c, OErr e (m_serial m))]).
+  (exists r, resolve st (m_dest m) = Some r /\ o = fwd_out cf st c r m) \/ (exists e, o = [(c, OErr e (m_serial m))]).
 Proof.
   unfold dispatch. destruct (resolve st (m_dest m)) as [r|]; [|intros H; inversion H; right; eauto].
   destruct (check_security_policy cf (st_now st) (st_pend st) c r m) as [pl res].
@@ -208,15 +233,15 @@ Qed.
    found (and removed) a slot (receiver, sender, reply serial); the receiver is the addressed recipient *)
 Lemma requested_only_state cf st c m st' o a :
   restrictive cf = true -> m_rserial m <> 0 -> dispatch cf st c m = (st', o) -> fwd_to o a = true ->
-  resolve st (m_dest m) = Some a /\ o = [(a, OFwd c m)] /\
+  resolve st (m_dest m) = Some a /\ o = fwd_out cf st c a m /\
   exists l1 p l2, st_pend st = l1 ++ p :: l2 /\ pend_match a c (m_rserial m) p = true /\
                   (forall q, In q (st_pend st') -> In q (l1 ++ l2) \/ (is_call m = true /\ q = mkPend c (Some a) (m_serial m) (st_now st))).
 Proof.
   intros Hr Hs. unfold dispatch. destruct (resolve st (m_dest m)) as [r|] eqn:Rs; [|intros H; inversion H; subst; simpl; discriminate].
   destruct (check_security_policy cf (st_now st) (st_pend st) c r m) as [pl res] eqn:C.
   destruct res as [e|]; [intros H; inversion H; subst; simpl; discriminate|].
-  destruct ((0 <? m_nfds m) && negb (conn_fds st r)); intros H; inversion H; subst; simpl; [discriminate|].
-  rewrite orb_false_r. intros Ha. apply N.eqb_eq in Ha. subst a. split; auto. split; auto.
+  destruct ((0 <? m_nfds m) && negb (conn_fds st r)); intros H; inversion H; subst; [simpl; discriminate|].
+  fold (fwd_out cf st c r m). rewrite fwd_to_single. intros Ha. apply N.eqb_eq in Ha. subst a. split; auto. split; auto.
   revert C. unfold check_security_policy. apply N.eqb_neq in Hs. rewrite Hs.
   destruct (check_reply (st_pend st) c r (m_rserial m)) as [pl1|] eqn:R.
   - destruct (check_reply_some _ _ _ _ _ R) as (l1 & p & l2 & E1 & E2 & Hm).
@@ -275,7 +300,7 @@ Lemma limit_step cf st e :
   (forall a, count_get a (st_pend st) <= max_replies cf) -> forall a, count_get a (st_pend (fst (step cf st e))) <= max_replies cf.
 Proof.
   intros Hl a. unfold step. destruct (negb (wf_event st e)); [apply Hl|].
-  destruct e as [fds|c m|c|d|c s n al rp dq|c s n]; simpl.
+  destruct e as [fds|c m|c|d|c s n al rp dq|c s n|c s rl]; simpl.
   - apply Hl.
   - unfold dispatch. destruct (resolve st (m_dest m)) as [r|]; [|apply Hl].
     destruct (check_security_policy cf (st_now st) (st_pend st) c r m) as [pl res] eqn:C.
@@ -288,6 +313,7 @@ Proof.
     pose proof (filter_count_le a (fun p => negb (expired cf (st_now st + d) p)) (st_pend st)). specialize (Hl a). lia.
   - destruct (acquire _ c al rp dq). simpl. apply Hl.
   - destruct (release (st_names st) c n). simpl. apply Hl.
+  - apply Hl.
 Qed.
 
 (* ------------------------------------------------------------------ Part 3a: registry and connections *)
@@ -394,7 +420,7 @@ Lemma step_conn cf st e : conn_rel st (fst (step cf st e)) e.
 Proof.
   unfold step. destruct (negb (wf_event st e)) eqn:W.
   - simpl. destruct e; simpl; auto. simpl in W. apply negb_true_iff in W. rewrite W. auto.
-  - apply negb_false_iff in W. destruct e as [fds|c m|c|d|c s n al rp dq|c s n]; simpl.
+  - apply negb_false_iff in W. destruct e as [fds|c m|c|d|c s n al rp dq|c s n|c s rl]; simpl.
     + intros x. unfold connected. simpl. rewrite find_conn_app. destruct (find_conn (st_conns st) x); auto. discriminate.
     + intros x. destruct (dispatch cf st c m) as [st' o] eqn:D. apply dispatch_frame in D. unfold connected. simpl. destruct D as (-> & _). auto.
     + simpl in W. rewrite W. intros x. unfold disconnect. destruct (expire_pass cf (st_now st) (drop_pending (st_pend st) c)).
@@ -402,13 +428,14 @@ Proof.
     + intros x. unfold tick. destruct (expire_pass cf (st_now st + d) (st_pend st)). reflexivity.
     + intros x. destruct (acquire _ c al rp dq). reflexivity.
     + intros x. destruct (release (st_names st) c n). reflexivity.
+    + intros x. reflexivity.
 Qed.
 
 Lemma names_ok_step cf st e : names_ok st -> names_ok (fst (step cf st e)).
 Proof.
   intros Hn. pose proof (step_conn cf st e) as Hc. revert Hc. unfold step.
   destruct (negb (wf_event st e)) eqn:W; [auto|]. apply negb_false_iff in W.
-  destruct e as [fds|c m|c|d|c s n al rp dq|c s n]; simpl; intros Hc.
+  destruct e as [fds|c m|c|d|c s n al rp dq|c s n|c s rl]; simpl; intros Hc.
   - intros n q o H1 H2. apply Hc. simpl in H1. eapply Hn; eauto.
   - destruct (dispatch cf st c m) as [st' o] eqn:D. simpl in *. pose proof (dispatch_frame _ _ _ _ _ _ D) as (_ & _ & E & _).
     intros n q o' H1 H2. rewrite Hc. rewrite E in H1. eapply Hn; eauto.
@@ -429,11 +456,10 @@ Proof.
         apply remove_owner_in in H2. destruct H2 as [H2 _]. apply lookup_in in L. eapply Hn; eauto.
       * intros n' q' o H1 H2. rewrite Hc. eapply Hn; eauto.
     + intros n' q' o H1 H2. rewrite Hc. eapply Hn; eauto.
+  - intros n' q' o H1 H2. simpl in *. rewrite Hc. eapply Hn; eauto.
 Qed.
 
 (* ------------------------------------------------------------------ Part 3b: what a plain send does to the table *)
-Lemma fwd_to_single r f m x : fwd_to [(r, OFwd f m)] x = (r =? x).
-Proof. unfold fwd_to. simpl. apply orb_false_r. Qed.
 Lemma fwd_to_err c e s x : fwd_to [(c, OErr e s)] x = false.
 Proof. reflexivity. Qed.
 
@@ -445,12 +471,12 @@ Proof. unfold can_receive. destruct (restrictive cf); auto. apply orb_true_r. Qe
 
 Inductive send_case (cf : cfg) (st : state) (c : N) (m : msg) (st' : state) (o : out) : Prop :=
 | SC_refused : st_pend st' = st_pend st -> (forall x, fwd_to o x = false) -> send_case cf st c m st' o
-| SC_through r : o = [(r, OFwd c m)] -> st_pend st' = st_pend st -> (is_call m = false \/ m_noreply m = true) ->
+| SC_through r : o = fwd_out cf st c r m -> st_pend st' = st_pend st -> (is_call m = false \/ m_noreply m = true) ->
      (m_rserial m = 0 \/ forall p, In p (st_pend st) -> pend_match r c (m_rserial m) p = false) -> send_case cf st c m st' o
-| SC_opens r : resolve st (m_dest m) = Some r -> o = [(r, OFwd c m)] -> is_call m = true -> m_noreply m = false -> m_rserial m = 0 ->
+| SC_opens r : resolve st (m_dest m) = Some r -> o = fwd_out cf st c r m -> is_call m = true -> m_noreply m = false -> m_rserial m = 0 ->
      st_pend st' = mkPend c (Some r) (m_serial m) (st_now st) :: st_pend st ->
      (forall p, In p (st_pend st) -> pend_match c r (m_serial m) p = false) -> count_get c (st_pend st) < max_replies cf -> send_case cf st c m st' o
-| SC_answers r l1 p l2 : o = [(r, OFwd c m)] -> is_call m = false -> m_rserial m <> 0 -> st_pend st = l1 ++ p :: l2 ->
+| SC_answers r l1 p l2 : o = fwd_out cf st c r m -> is_call m = false -> m_rserial m <> 0 -> st_pend st = l1 ++ p :: l2 ->
      pend_match r c (m_rserial m) p = true -> st_pend st' = l1 ++ l2 -> send_case cf st c m st' o.
 
 Lemma send_cases cf st c m st' o : plain_msg m = true -> dispatch cf st c m = (st', o) -> send_case cf st c m st' o.
@@ -730,12 +756,13 @@ Proof.
   intros I Hn Hp. pose proof (step_conn cf st e) as Hc. revert Hc. unfold step.
   destruct (negb (wf_event st e)) eqn:W; cbn [fst snd].
   - (* ill-formed: nothing happens *)
-    intros _. destruct e as [fds|c m|c|d|c s n al rp dq|c s n]; try discriminate.
+    intros _. destruct e as [fds|c m|c|d|c s n al rp dq|c s n|c s rl]; try discriminate.
     + apply (Inv_same cf st tr st); auto. intros a b s. simpl. rewrite !andb_false_r. reflexivity.
     + apply Inv_noop_disconnect; auto; simpl in W; apply negb_true_iff in W; exact W.
     + apply (Inv_same cf st tr st); auto; intros; apply age_other; exact Logic.I.
     + apply (Inv_same cf st tr st); auto; intros; apply age_other; exact Logic.I.
-  - apply negb_false_iff in W. destruct e as [fds|c m|c|d|c s n al rp dq|c s n]; cbn [fst snd]; intros Hc.
+    + apply (Inv_same cf st tr st); auto; intros; apply age_other; exact Logic.I.
+  - apply negb_false_iff in W. destruct e as [fds|c m|c|d|c s n al rp dq|c s n|c s rl]; cbn [fst snd]; intros Hc.
     + apply (Inv_same cf st tr); auto; intros; apply age_other; exact Logic.I.
     + simpl in W. rewrite !andb_true_iff in W. destruct W as [[W _] _].
       destruct (dispatch cf st c m) as [st' o] eqn:D. cbn [fst snd]. apply (Inv_send cf st); auto.
@@ -744,6 +771,7 @@ Proof.
     + destruct (acquire _ c al rp dq) as [q' code]. cbn [fst snd]. apply (Inv_same cf st tr); auto;
         try solve [intros x Hx; simpl in Hc; rewrite Hc; auto]; try solve [intros; apply age_other; exact Logic.I].
     + destruct (release (st_names st) c n) as [nm code]. cbn [fst snd]. apply (Inv_same cf st tr); auto;
+        try solve [intros x Hx; simpl in Hc; rewrite Hc; auto]; try solve [intros; apply age_other; exact Logic.I].    + apply (Inv_same cf st tr); auto;
         try solve [intros x Hx; simpl in Hc; rewrite Hc; auto]; try solve [intros; apply age_other; exact Logic.I].
 Qed.
 
@@ -866,12 +894,12 @@ Proof.
   assert (Hop1 : opens a b s e1 o1 = false).
   { assert (Hin : In e1 (rev h')) by (rewrite <- trace_events with (cf := cf), <- Hrest, map_app; apply in_app_iff; right; left; auto).
     apply in_rev in Hin. unfold plain in Hp'. rewrite forallb_forall in Hp'. specialize (Hp' _ Hin).
-    destruct e1 as [|c1 m1| | | |]; try discriminate. simpl in A1, Hp' |- *.
+    destruct e1 as [|c1 m1| | | | |]; try discriminate. simpl in A1, Hp' |- *.
     rewrite !andb_true_iff, !N.eqb_eq, negb_true_iff, N.eqb_neq in A1. destruct A1 as [[[_ R] Z] _].
     unfold plain_msg in Hp'. apply andb_true_iff in Hp'. destruct Hp' as [_ Hc].
     destruct (is_call m1); [|rewrite andb_false_r; auto]. simpl in Hc. apply N.eqb_eq in Hc. congruence. }
   destruct (opened_in tr2 a b s) eqn:O; auto. exfalso.
-  destruct e2 as [|c2 m2| | | |]; try discriminate. simpl in A2.
+  destruct e2 as [|c2 m2| | | | |]; try discriminate. simpl in A2.
   rewrite !andb_true_iff, !N.eqb_eq, negb_true_iff, N.eqb_neq in A2. destruct A2 as [[[C2 R2] Z2] F2]. subst c2 s.
   destruct (only_addressee cf h' b m2 a Hr Hp' Z2 F2) as [Hopen _].
   apply Hopen. rewrite <- Hrest. apply age_none_until_opened; auto.
@@ -1002,12 +1030,21 @@ Proof.
   destruct (m_rserial m =? 0); [apply G|]. destruct (check_reply pl c r (m_rserial m)); apply G.
 Qed.
 
+Lemma count_noreply_fwd_out cf st c r m a s : count_noreply (fwd_out cf st c r m) a s = 0%nat.
+Proof.
+  unfold count_noreply, fwd_out. cbn [filter].
+  assert (E : nr_is a s (r, OFwd c m) = false) by (unfold nr_is; cbn [fst snd]; apply andb_false_r).
+  rewrite E. rewrite filter_eav; auto. intros x Hx. unfold nr_is. rewrite Hx. apply andb_false_r.
+Qed.
+
 Lemma dispatch_no_noreply cf st c m a s : count_noreply (snd (dispatch cf st c m)) a s = 0%nat.
 Proof.
   unfold dispatch. destruct (resolve st (m_dest m)) as [r|].
   - destruct (check_security_policy cf (st_now st) (st_pend st) c r m) as [pl [e|]] eqn:C.
     + destruct (csp_error_kinds _ _ _ _ _ _ _ _ C) as [->| ->]; unfold count_noreply, nr_is; simpl; destruct (c =? a); reflexivity.
-    + destruct ((0 <? m_nfds m) && negb (conn_fds st r)); unfold count_noreply, nr_is; simpl; [destruct (c =? a)|destruct (r =? a)]; reflexivity.
+    + destruct ((0 <? m_nfds m) && negb (conn_fds st r)); cbn [snd].
+      * unfold count_noreply, nr_is; simpl; destruct (c =? a); reflexivity.
+      * apply count_noreply_fwd_out.
   - unfold count_noreply, nr_is. simpl. destruct (m_noauto m); destruct (c =? a); reflexivity.
 Qed.
 
@@ -1020,7 +1057,7 @@ Proof.
   intros Hp Hc. destruct (ledger_invariant cf h Hp) as [[I1 I2 I3 I4 I5] _].
   destruct (wf_event (state_of cf h) e) eqn:W; [|rewrite step_illformed in Hc; auto; unfold count_noreply in Hc; simpl in Hc; lia].
   unfold trace_of at 2. rewrite run_snoc. cbn [snd]. fold (trace_of cf h).
-  destruct e as [fds|c m|c|d|c sr n al rp dq|c sr n].
+  destruct e as [fds|c m|c|d|c sr n al rp dq|c sr n|c sr rl].
   - unfold step in Hc. rewrite W in Hc. unfold count_noreply in Hc. simpl in Hc. lia.
   - rewrite step_send in Hc; auto. rewrite dispatch_no_noreply in Hc. lia.
   - simpl in W. rewrite disconnect_output in *; auto.
@@ -1044,7 +1081,7 @@ Proof.
     rewrite A. replace (st_now (state_of cf h) - p_added q + d) with (st_now (state_of cf h) + d - p_added q) by lia.
     rewrite He. reflexivity.
   - unfold step in Hc. rewrite W in Hc. cbn [negb] in Hc. destruct (acquire _ c al rp dq) in Hc. unfold count_noreply, nr_is in Hc. simpl in Hc. destruct (c =? a); simpl in Hc; lia.
-  - unfold step in Hc. rewrite W in Hc. cbn [negb] in Hc. destruct (release _ c n) in Hc. unfold count_noreply, nr_is in Hc. simpl in Hc. destruct (c =? a); simpl in Hc; lia.
+  - unfold step in Hc. rewrite W in Hc. cbn [negb] in Hc. destruct (release _ c n) in Hc. unfold count_noreply, nr_is in Hc. simpl in Hc. destruct (c =? a); simpl in Hc; lia.  - unfold step in Hc. rewrite W in Hc. cbn [negb] in Hc. unfold count_noreply, nr_is in Hc. simpl in Hc. destruct (c =? a); simpl in Hc; lia.
 Qed.
 
 (* C09: the NO_REPLY_EXPECTED flag, on the ledger (holds by definition of the ledger) and on the table (noreply_opens_nothing) *)
@@ -1061,7 +1098,7 @@ Qed.
 (* ------------------------------------------------------------------ C05 *)
 Theorem send_exactly_once cf st c m :
   wf_event st (ESend c m) = true ->
-  (exists r, resolve st (m_dest m) = Some r /\ snd (step cf st (ESend c m)) = [(r, OFwd c m)]) \/
+  (exists r, resolve st (m_dest m) = Some r /\ snd (step cf st (ESend c m)) = fwd_out cf st c r m) \/
   (exists e, snd (step cf st (ESend c m)) = [(c, OErr e (m_serial m))]).
 Proof.
   intros W. rewrite step_send; auto. destruct (dispatch cf st c m) as [st' o] eqn:D. apply dispatch_shape in D. exact D.
@@ -1071,7 +1108,9 @@ Theorem no_third_party cf st c m x f m' :
   In (x, OFwd f m') (snd (step cf st (ESend c m))) -> resolve st (m_dest m) = Some x /\ f = c /\ m' = m.
 Proof.
   destruct (wf_event st (ESend c m)) eqn:W; [|rewrite step_illformed; auto; intros []].
-  destruct (send_exactly_once cf st c m W) as [(r & Rs & ->)|(e & ->)]; intros [H|[]]; inversion H; subst; auto.
+  destruct (send_exactly_once cf st c m W) as [(r & Rs & ->)|(e & ->)].
+  - intros [H|H]; [inversion H; subst; auto|]. apply eav_out_in in H. discriminate.
+  - intros [H|[]]; inversion H.
 Qed.
 
 Theorem no_owner_error cf st c m :
@@ -1084,7 +1123,7 @@ Theorem permissive_delivers cf st c m r :
   (0 <? m_nfds m) && negb (conn_fds st r) = false ->
   (is_call m = false \/ m_noreply m = true \/
    ((forall p, In p (st_pend st) -> pend_match c r (m_serial m) p = false) /\ count_get c (st_pend st) < max_replies cf)) ->
-  snd (step cf st (ESend c m)) = [(r, OFwd c m)].
+  snd (step cf st (ESend c m)) = fwd_out cf st c r m.
 Proof.
   intros W Hr Rs Hf Hc. rewrite step_send; auto. unfold dispatch. rewrite Rs.
   destruct (check_security_policy cf (st_now st) (st_pend st) c r m) as [pl res] eqn:C.
@@ -1109,12 +1148,12 @@ Lemma step_nonsend_no_fwd cf st e x :
   match e with ESend _ _ => False | _ => True end -> In x (snd (step cf st e)) -> match snd x with OFwd _ _ => False | _ => True end.
 Proof.
   intros He. unfold step. destruct (negb (wf_event st e)); [intros []|].
-  destruct e as [fds|c m|c|d|c s n al rp dq|c s n]; try tauto.
+  destruct e as [fds|c m|c|d|c s n al rp dq|c s n|c s rl]; try tauto.
   - intros [].
   - unfold disconnect. rewrite expire_pass_spec. cbn [snd]. intros H. apply in_map_iff in H. destruct H as (p & <- & _). exact I.
   - unfold tick. rewrite expire_pass_spec. cbn [snd]. intros H. apply in_map_iff in H. destruct H as (p & <- & _). exact I.
   - destruct (acquire _ c al rp dq). intros [<-|[]]. exact I.
-  - destruct (release (st_names st) c n). intros [<-|[]]. exact I.
+  - destruct (release (st_names st) c n). intros [<-|[]]. exact I.  - intros [<-|[]]. exact I.
 Qed.
 
 Lemma no_fwd_filter a b (o : out) :
@@ -1126,6 +1165,16 @@ Proof.
   - apply IH; intros; apply H; auto.
 Qed.
 
+Lemma eav_from_conn a (g : N * omsg -> bool) cf st c r m :
+  filter (from_conn a) (map snd (filter g (eav_out cf st c r m))) = [].
+Proof.
+  assert (G : forall l, (forall x, In x l -> snd x = OEav c m) -> filter (from_conn a) (map snd (filter g l)) = []).
+  { induction l as [|x l IH]; simpl; auto. intros H. destruct (g x); simpl.
+    - rewrite (H x (or_introl eq_refl)). simpl. apply IH. intros; apply H; auto.
+    - apply IH. intros; apply H; auto. }
+  apply G. intros x Hx. eapply eav_out_in; eauto.
+Qed.
+
 (* per (sender, recipient) FIFO: what b reads from a is, in order, what a wrote and the bus passed on to b *)
 Theorem fifo cf h a b :
   filter (from_conn a) (inbox (trace_of cf h) b) = map (OFwd a) (passed_on (trace_of cf h) a b).
@@ -1135,14 +1184,15 @@ Proof.
   set (st := state_of cf h). set (o := snd (step cf st e)).
   assert (Hin : inbox ((e, o) :: trace_of cf h) b = inbox (trace_of cf h) b ++ map snd (filter (fun x => fst x =? b) o)) by reflexivity.
   rewrite Hin, filter_app, IH.
-  destruct e as [fds|c m|c|d|c s n al rp dq|c s n];
+  destruct e as [fds|c m|c|d|c s n al rp dq|c s n|c s rl];
     try (rewrite no_fwd_filter; [rewrite app_nil_r; reflexivity|intros x; apply step_nonsend_no_fwd; exact I]).
   assert (Hpo : passed_on ((ESend c m, o) :: trace_of cf h) a b = passed_on (trace_of cf h) a b ++ (if (c =? a) && fwd_to o b then [m] else [])) by reflexivity.
   rewrite Hpo, map_app. f_equal.
   destruct (wf_event st (ESend c m)) eqn:W.
   - destruct (send_exactly_once cf st c m W) as [(r & _ & E)|(er & E)]; fold o in E; rewrite E.
-    + rewrite fwd_to_single. simpl. destruct (r =? b); simpl; [|rewrite andb_false_r; reflexivity].
-      rewrite andb_true_r. destruct (c =? a) eqn:Ca; auto. apply N.eqb_eq in Ca. subst. reflexivity.
+    + rewrite fwd_to_single. unfold fwd_out. cbn [filter fst]. destruct (r =? b); cbn [map snd filter from_conn].
+      * rewrite andb_true_r. rewrite eav_from_conn. destruct (c =? a) eqn:Ca; auto. apply N.eqb_eq in Ca. subst. reflexivity.
+      * rewrite andb_false_r. apply eav_from_conn.
     + rewrite fwd_to_err, andb_false_r. simpl. destruct (c =? b); reflexivity.
   - unfold o. rewrite step_illformed; auto. simpl. rewrite andb_false_r. reflexivity.
 Qed.
@@ -1175,23 +1225,30 @@ Proof.
   - destruct (gs a s p); cbn [length]; lia.
 Qed.
 
+Lemma err_fwd_out cf st c r m a s : filter (err_is a s) (fwd_out cf st c r m) = [].
+Proof.
+  unfold fwd_out. cbn [filter].
+  assert (E : err_is a s (r, OFwd c m) = false) by (unfold err_is; cbn [fst snd]; apply andb_false_r).
+  rewrite E. apply filter_eav. intros x Hx. unfold err_is. rewrite Hx. apply andb_false_r.
+Qed.
+
 Lemma errors_step cf st e a s :
   plain_event e = true ->
   (length (filter (err_is a s) (snd (step cf st e))) + count_gs a s (st_pend (fst (step cf st e)))
    <= count_gs a s (st_pend st) + (if is_send_as a s e then 1 else 0))%nat.
 Proof.
   intros Hp. unfold step. destruct (negb (wf_event st e)); [simpl; lia|].
-  destruct e as [fds|c m|c|d|c sr n al rp dq|c sr n]; cbn [is_send_as].
+  destruct e as [fds|c m|c|d|c sr n al rp dq|c sr n|c sr rl]; cbn [is_send_as].
   - simpl. lia.
   - destruct (dispatch cf st c m) as [st' o] eqn:D. cbn [fst snd].
     destruct (send_cases _ _ _ _ _ _ Hp D) as [Hpe Hf | r Ho Hpe _ _ | r _ Ho _ _ _ Hpe _ _ | r l1 p l2 Ho _ _ Hps _ Hpe].
     + rewrite Hpe. destruct (dispatch_shape _ _ _ _ _ _ D) as [(r & _ & ->)|(er & ->)].
       * specialize (Hf r). rewrite fwd_to_single, N.eqb_refl in Hf. discriminate.
       * simpl. unfold err_is. cbn [fst snd]. destruct ((c =? a) && (m_serial m =? s)); simpl; lia.
-    + rewrite Hpe, Ho. simpl. unfold err_is. cbn [fst snd]. rewrite andb_false_r. simpl. lia.
-    + rewrite Hpe, Ho. unfold count_gs. simpl. unfold err_is, gs at 1. cbn [fst snd p_get p_serial]. rewrite andb_false_r.
+    + rewrite Hpe, Ho, err_fwd_out. simpl. lia.
+    + rewrite Hpe, Ho, err_fwd_out. unfold count_gs. cbn [filter]. unfold gs at 1. cbn [p_get p_serial].
       destruct ((c =? a) && (m_serial m =? s)); simpl; lia.
-    + rewrite Hpe, Hps, Ho. unfold count_gs. rewrite !filter_app, !app_length. simpl. unfold err_is. cbn [fst snd]. rewrite andb_false_r.
+    + rewrite Hpe, Hps, Ho, err_fwd_out. unfold count_gs. rewrite !filter_app, !app_length. cbn [filter].
       destruct (gs a s p); simpl; lia.
   - unfold disconnect. rewrite expire_pass_spec. cbn [fst snd st_pend].
     pose proof (expire_partition a s (expired cf (st_now st)) (drop_pending (st_pend st) c)).
@@ -1199,7 +1256,7 @@ Proof.
   - unfold tick. rewrite expire_pass_spec. cbn [fst snd st_pend].
     pose proof (expire_partition a s (expired cf (st_now st + d)) (st_pend st)). lia.
   - destruct (acquire _ c al rp dq). simpl. unfold err_is. cbn [fst snd]. rewrite andb_false_r. simpl. lia.
-  - destruct (release (st_names st) c n). simpl. unfold err_is. cbn [fst snd]. rewrite andb_false_r. simpl. lia.
+  - destruct (release (st_names st) c n). simpl. unfold err_is. cbn [fst snd]. rewrite andb_false_r. simpl. lia.  - simpl. unfold err_is. cbn [fst snd]. rewrite andb_false_r. simpl. lia.
 Qed.
 
 Lemma sends_snoc h e a s : sends_with_serial (h ++ [e]) a s = (sends_with_serial h a s + (if is_send_as a s e then 1 else 0))%nat.
@@ -1221,3 +1278,44 @@ Qed.
 Theorem one_error_per_serial cf h a s :
   plain h = true -> sends_with_serial h a s = 1%nat -> (errors_in (trace_of cf h) a s <= 1)%nat.
 Proof. intros Hp H1. pose proof (errors_bounded cf h a s Hp). lia. Qed.
+
+(* ------------------------------------------------------------------ C05: copies made for match rules *)
+Lemma existsb_eqb_in o seen : existsb (N.eqb o) seen = true <-> In o seen.
+Proof.
+  rewrite existsb_exists. split; [intros (x & Hx & E); apply N.eqb_eq in E; subst; auto|intros H; exists o; split; auto; apply N.eqb_refl].
+Qed.
+
+Lemma eav_list_spec st rules c r m : forall seen,
+  NoDup (eav_list st rules c r m seen) /\
+  forall e, In e (eav_list st rules c r m seen) ->
+    ~ In e seen /\ exists rl, In (e, rl) rules /\ rule_matches st rl c r m = true.
+Proof.
+  induction rules as [|[o rl] rest IH]; intros seen; simpl.
+  - split; [constructor|intros e []].
+  - destruct (rule_matches st rl c r m && negb (existsb (N.eqb o) seen)) eqn:E.
+    + apply andb_true_iff in E. destruct E as [Em Es]. apply negb_true_iff in Es.
+      destruct (IH (o :: seen)) as [Hnd Hall]. split.
+      * constructor; auto. intros Hin. apply Hall in Hin. destruct Hin as [Hn _]. apply Hn. left; auto.
+      * intros e [<-|He].
+        -- split; [intros Hin; apply existsb_eqb_in in Hin; congruence|exists rl; auto].
+        -- destruct (Hall e He) as [Hn (rl' & Hr & Hm)]. split; [intros Hin; apply Hn; right; auto|exists rl'; auto].
+    + destruct (IH seen) as [Hnd Hall]. split; auto. intros e He. destruct (Hall e He) as [Hn (rl' & Hr & Hm)]. split; auto. exists rl'; auto.
+Qed.
+
+Theorem eavesdrop_copies cf st c r m x :
+  In x (eav_out cf st c r m) ->
+  snd x = OEav c m /\ fst x <> r /\
+  exists rl, In (fst x, rl) (st_rules st) /\ r_eaves rl = true /\ rule_matches st rl c r m = true.
+Proof.
+  intros H. split; [eapply eav_out_in; eauto|]. unfold eav_out in H. apply in_map_iff in H. destruct H as (e & <- & He).
+  apply filter_In in He. destruct He as [He _]. cbn [fst]. unfold eavesdroppers in He.
+  destruct (eav_list_spec st (st_rules st) c r m [r]) as [_ Hall]. destruct (Hall e He) as [Hn (rl & Hr & Hm)].
+  split; [intros ->; apply Hn; left; auto|]. exists rl. split; auto. split; auto.
+  unfold rule_matches in Hm. rewrite !andb_true_iff in Hm. tauto.
+Qed.
+
+Theorem eavesdrop_once cf st c r m : NoDup (map fst (eav_out cf st c r m)).
+Proof.
+  unfold eav_out. rewrite map_map. cbn [fst]. rewrite map_id. apply NoDup_filter.
+  destruct (eav_list_spec st (st_rules st) c r m [r]) as [Hnd _]. exact Hnd.
+Qed.
